@@ -1,4 +1,5 @@
-"""C18 — closing a client always completes. Theorems: Props_C18.v (model Conn.v). Correspondence: trace validation of harness family conn."""
+"""C18 — closing a client always completes. Theorems: Props_C18.v (model Conn.v). Correspondence: trace validation of harness family conn;
+calls whose response never becomes usable, in flight at the close (family close-pending, direct oracle)."""
 import vlib
 import connrun
 
@@ -8,6 +9,20 @@ PROPS = "Props_C18"
 def run(res):
     vlib.proof_step(res, PROPS, ["theories/ConnCases.vo", "theories/StreamCases.vo"])
     connrun.run_conn(res, ["close", "fault"], with_streams=True)
+    close_pending(res)
+
+
+def close_pending(res):
+    exe = vlib.build_harness()[2]
+    rc, obs, err, bad = vlib.run_family(exe, "close-pending", seed=res.seed, tier=res.tier, timeout=300)
+    if rc != 0 or bad or not obs:
+        res.mismatches.append({"family": "close-pending", "error": "harness exit %d" % rc, "stderr": err[-2000:], "bad": bad[:3]})
+        return
+    for o in obs:
+        if o.get("oracle_fail"):
+            res.violations.append({"what": o["oracle_fail"], "family": "close-pending", "case": o, "signature": "close-pending:%s:%s" % (o["method"], o["answer"])})
+    res.add_cov(close_with_unusable_responses=len(obs), pending_until_close=sum(1 for o in obs if not o["returned_before_close"]),
+                close_pending_rule="fake peer answers a subscribing / unary call with nothing, a foreign id or a result that is not a channel id; then the closer is invoked: it returns and the call returns")
 
 
 def replay(res, path):
